@@ -109,6 +109,36 @@ class Unit:
                 break
         return start, end
 
+    def expand_macro(self, rel, macro_name, only=None):
+        """R26: textual expansion of a single-arm macro_rules! macro of /repo: each invocation
+        `name!(a, b, ...)` at item level is replaced by the macro body with $params substituted
+        (what rustc's macro expander does for ident/ty/expr fragments)."""
+        s = self.src(rel)
+        a, b = s.item_span(r'macro_rules!\s+' + re.escape(macro_name) + r'(?![A-Za-z0-9_])')
+        text = s.text[a:b]
+        m = re.search(r'\(\s*((?:\$\w+:\w+\s*,?\s*)+)\)\s*=>\s*\{', text)
+        if not m:
+            raise ExtractError('cannot parse macro_rules! ' + macro_name)
+        params = re.findall(r'\$(\w+):\w+', m.group(1))
+        body_open = a + m.end() - 1
+        body_close = s.match_close(body_open)
+        body = s.text[body_open + 1:body_close]
+        count = 0
+        for inv in re.finditer(r'(?m)^' + re.escape(macro_name) + r'!\(([^;]*)\);', s.code):
+            args = [x.strip() for x in inv.group(1).split(',')]
+            if len(args) != len(params):
+                raise ExtractError('macro %s: arity mismatch' % macro_name)
+            if only and args[0] not in only:
+                continue
+            exp = body
+            for p_, a_ in zip(params, args):
+                exp = re.sub(r'\$' + p_ + r'(?![A-Za-z0-9_])', a_, exp)
+            self.chunks.append(('code', '%s:%s!(%s) line %d' % (rel, macro_name, ', '.join(args), s.line_of(inv.start())), exp))
+            count += 1
+        if count == 0:
+            raise ExtractError('macro %s: no invocation found' % macro_name)
+        self.rule_hits.append(('R26:expand-' + macro_name, count))
+
     # --------------------------------------------------------------- assemble
     def assemble(self):
         out = []
